@@ -14,6 +14,7 @@ ENGINES = {
     "C02": ("eng_wire", "run"),
     "C03": ("eng_asm", "run"),
     "C04": ("eng_machine", "run"),
+    "C05": ("eng_host", "run"),
     "C07": ("eng_nv", "run"),
     "C12": ("eng_epr", "run"),
     "C13": ("eng_ctrl", "run"),
